@@ -1,5 +1,285 @@
 import PkVerif.Drv.Common
-/-! `pkmodel-c11`: stub (property not built yet). -/
+import PkVerif.Model.Encrypt
+import PkVerif.Model.EncryptSha
+import PkVerif.Model.Ref
+import PkVerif.Gen.Facts
+import PkVerif.Gen.C11
+/-!
+`pkmodel-c11`: the encrypt store model behind the C11 line protocol.
+
+The model never sees real ciphertext: it runs the toy cipher, and blobs of the wrapped stores are
+named by tokens (`E<n>` / `M<n>` = the n-th distinct name ever written to `blobs` / `meta`); plain refs
+are named `@<n>` (the n-th receive op of the case) when known.
+
+    recv|recvlate <seg>+          seg = hex bytes | - | E<n> (that blob's ref text) | @<n> (that ref's text)
+    recvas <ref> <seg>+           receive under the given ref
+    fetch|stat <ref>              ref = @<n> | hex of the ref text
+    enum <after> <limit>
+    dump | sum | calls
+    garble <tok> <kind> <pos> | copy <dst> <src> | swap <a> <b> | drop <tok> | plant M|E <src>
+    snap | restore
+    restart keep|wipe <M-tokens in arrival order, comma separated | ->
+-/
 namespace Pk.Drv.C11
-def machine : Machine := { σ := Unit, init := (), step := fun s _ => (s, "bad-op") }
+open Pk Pk.SMap Pk.Encrypt
+
+def tbl : Ref.Tbl := ⟨Gen.refSizes, Gen.testRefTypes, Gen.maxOtherDigestLen⟩
+
+def P : Params where
+  A := toyAEAD
+  key := [107]
+  digest := Sha224.refText
+  parseKnown := fun s => (Ref.parse tbl s false).isSome
+  parseValid := fun s => (Ref.parse tbl s true).isSome
+  version := Gen.encryptVersion
+  full := Gen.encryptFullMetaBlobSize
+  small := Gen.encryptSmallMetaCountLimit
+
+def rsteps : List RStep := recvSteps Gen.encryptReceiveEffects Gen.encryptRecvTargets
+def psteps : List PStep := packSteps Gen.encryptPackEffects
+
+structure D where
+  s : St := {}
+  up : Bool := true
+  eNames : Array Bytes := #[]
+  mNames : Array Bytes := #[]
+  seen : Nat := 0        -- trace entries already turned into tokens
+  callsSeen : Nat := 0   -- trace entries already reported by `calls`
+  labels : Array Bytes := #[]
+  saved : Option (SMap Bytes × SMap Bytes) := none
+
+/-! ### tokens -/
+
+def idxOf (a : Array Bytes) (x : Bytes) : Option Nat := a.findIdx? (· == x)
+
+def addName (a : Array Bytes) (x : Bytes) : Array Bytes := if (idxOf a x).isSome then a else a.push x
+
+/-- give tokens to the names written since the last call -/
+def sync (d : D) : D :=
+  let fresh := (d.s.trace.take (d.s.trace.length - d.seen)).reverse
+  let (e, m) := fresh.foldl (fun (em : Array Bytes × Array Bytes) c =>
+    match c with
+    | .putBlobs n _ => (addName em.1 n, em.2)
+    | .putMeta n _ => (em.1, addName em.2 n)
+    | .rmMeta _ => em) (d.eNames, d.mNames)
+  { d with eNames := e, mNames := m, seen := d.s.trace.length }
+
+def tokOf (pre : String) (a : Array Bytes) (x : Bytes) : String :=
+  match idxOf a x with
+  | some i => s!"{pre}{i + 1}"
+  | none => pre ++ "?"
+
+def labelOf (d : D) (ref : Bytes) : String :=
+  match idxOf d.labels ref with
+  | some i => s!"@{i + 1}"
+  | none => toHexString ref
+
+/-- `E12` / `M3` / `@4` -/
+def parseTok (pre : Char) (w : String) : Option Nat :=
+  match w.toList with
+  | c :: rest => if c == pre && !rest.isEmpty && rest.all Char.isDigit then
+      (match (String.ofList rest).toNat? with | some (n + 1) => some n | _ => none) else none
+  | [] => none
+
+inductive Loc where
+  | e (i : Nat) | m (i : Nat)
+
+def parseLoc (d : D) (w : String) : Option (Loc × Bytes) :=
+  match parseTok 'E' w with
+  | some i => (d.eNames[i]?).map (fun n => (.e i, n))
+  | none => match parseTok 'M' w with
+    | some i => (d.mNames[i]?).map (fun n => (.m i, n))
+    | none => none
+
+def refArg (d : D) (w : String) : Option Bytes :=
+  match parseTok '@' w with
+  | some i => d.labels[i]?
+  | none => if w.startsWith "@" then none else hexArg w
+
+def segs (d : D) : List String → Option Bytes
+  | [] => some []
+  | w :: ws =>
+    let here : Option Bytes :=
+      match parseTok 'E' w with
+      | some i => d.eNames[i]?
+      | none => match parseTok '@' w with
+        | some i => d.labels[i]?
+        | none => if w.startsWith "E" || w.startsWith "@" then none else hexArg w
+    match here, segs d ws with
+    | some a, some b => some (a ++ b)
+    | _, _ => none
+
+/-! ### canonical views -/
+
+def sortStrings (l : List String) : List String := l.mergeSort (fun a b => decide (a ≤ b))
+
+def isAsciiWord (b : Bytes) : Bool := !b.isEmpty && b.all (fun c => (48 ≤ c && c ≤ 57) || (97 ≤ c && c ≤ 122) || c == 45)
+
+def wordOrHex (b : Bytes) : String := if isAsciiWord b then toAsciiString b else "x" ++ toHexString b
+
+/-- an index value / the tail of a meta line: `<size text>/<enc token>` -/
+def canonVal (d : D) (v : Bytes) : String :=
+  match splitOn 47 v with
+  | [a, b] => wordOrHex a ++ "/" ++ (match idxOf d.eNames b with | some i => s!"E{i + 1}" | none => wordOrHex b)
+  | _ => "x" ++ toHexString v
+
+def showLines (d : D) (ls : List (Bytes × Bytes)) : String :=
+  ";".intercalate (sortStrings (ls.map (fun pv => labelOf d pv.1 ++ "/" ++ canonVal d pv.2)))
+
+def showMetaBlob (d : D) (c : Bytes) : String :=
+  match decryptBlob P c with
+  | none => "!"
+  | some text => match parseMeta P text with
+    | none => "?"
+    | some ls => showLines d ls
+
+def showDataBlob (d : D) (c : Bytes) : String :=
+  match decryptBlob P c with
+  | none => "!"
+  | some text =>
+    match idxOf d.labels (P.digest text) with
+    | some i => s!"@{i + 1}"
+    | none => if (parseMeta P text).isSome then "~" else "?"
+
+def present (names : Array Bytes) (store : SMap Bytes) : List (Nat × Bytes) :=
+  (names.toList.zipIdx).filterMap (fun (n, i) => (get store n).map (fun c => (i + 1, c)))
+
+def dump (d : D) : String :=
+  let idx := sortStrings (d.s.index.map (fun kv => labelOf d kv.1 ++ "=" ++ canonVal d kv.2))
+  let metas := (present d.mNames d.s.metas).map (fun (i, c) => s!"M{i}" ++ "{" ++ showMetaBlob d c ++ "}")
+  let blobs := (present d.eNames d.s.blobs).map (fun (i, c) => s!"E{i}>" ++ showDataBlob d c)
+  s!"up={if d.up then 1 else 0} idx=[{",".intercalate idx}] meta=[{",".intercalate metas}] blobs=[{",".intercalate blobs}]"
+
+def showNats (l : List Nat) : String := ",".intercalate (l.map toString)
+
+def summary (d : D) : String :=
+  let counts := (d.s.metas.map (fun kv => match linesOf P kv.2 with | some ls => ls.length | none => 0))
+  let sorted := counts.mergeSort (fun a b => decide (a ≤ b))
+  s!"up={if d.up then 1 else 0} idx={d.s.index.length} meta={d.s.metas.length} lines=[{showNats sorted}] blobs={d.s.blobs.length}"
+
+def showCall (d : D) : Call → String
+  | .putBlobs n _ => "E+" ++ tokOf "E" d.eNames n
+  | .putMeta n _ => "M+" ++ tokOf "M" d.mNames n
+  | .rmMeta ns => "M-" ++ ",".intercalate (ns.map (tokOf "M" d.mNames))
+
+def calls (d : D) : D × String :=
+  let fresh := (d.s.trace.take (d.s.trace.length - d.callsSeen)).reverse
+  ({ d with callsSeen := d.s.trace.length },
+   if fresh.isEmpty then "-" else " ".intercalate (fresh.map (showCall d)))
+
+def showRes (d : D) : Res → String
+  | .sized n => s!"ok {n}"
+  | .bytes b sz => s!"ok {labelOf d (P.digest b)} {sz}"
+  | .notExist => "notexist"
+  | .corrupt => "corrupt"
+  | .err => "err"
+  | .refs l => "refs " ++ (if l.isEmpty then "-" else ",".intercalate (l.map (fun (k, sz) => s!"{labelOf d k}:{sz}")))
+
+/-! ### ops -/
+
+def doRecv (d : D) (late : Bool) (ref plain : Bytes) : D × String :=
+  let d := { d with labels := d.labels.push ref }
+  if !d.up then (d, "down") else
+  let (s', r) := receiveBlob P rsteps psteps late d.s ref plain
+  let d := sync { d with s := s' }
+  (d, showRes d r)
+
+def getLoc (d : D) : Loc × Bytes → Option Bytes
+  | (.e _, n) => get d.s.blobs n
+  | (.m _, n) => get d.s.metas n
+
+def setLoc (d : D) (l : Loc × Bytes) (c : Bytes) : D :=
+  match l with
+  | (.e _, n) => { d with s := { d.s with blobs := ins n c d.s.blobs } }
+  | (.m _, n) => { d with s := { d.s with metas := ins n c d.s.metas } }
+
+def parseOrder (d : D) (w : String) : Option (List Bytes) :=
+  if w == "-" then some [] else
+  (w.splitOn ",").foldr (fun t acc =>
+    match parseTok 'M' t, acc with
+    | some i, some l => (d.mNames[i]?).map (· :: l)
+    | _, _ => none) (some [])
+
+def step (d : D) (ws : List String) : D × String :=
+  match ws with
+  | "recv" :: rest@(_ :: _) =>
+    (match segs d rest with | some b => doRecv d false (P.digest b) b | none => (d, "bad-op"))
+  | "recvlate" :: rest@(_ :: _) =>
+    (match segs d rest with | some b => doRecv d true (P.digest b) b | none => (d, "bad-op"))
+  | "recvas" :: r :: rest@(_ :: _) =>
+    (match refArg d r, segs d rest with
+     | some ref, some b => doRecv d false ref b
+     | _, _ => (d, "bad-op"))
+  | ["fetch", r] =>
+    (match refArg d r with
+     | some ref => (d, if d.up then showRes d (fetch P d.s ref) else "down")
+     | none => (d, "bad-op"))
+  | ["stat", r] =>
+    (match refArg d r with
+     | some ref => (d, if d.up then showRes d (statBlob P d.s ref) else "down")
+     | none => (d, "bad-op"))
+  | ["enum", a, l] =>
+    (match refArg d a, l.toNat? with
+     | some after, some limit => (d, if d.up then showRes d (enumerateBlobs P d.s after limit) else "down")
+     | _, _ => (d, "bad-op"))
+  | ["dump"] => (d, dump d)
+  | ["sum"] => (d, summary d)
+  | ["calls"] => calls d
+  | ["garble", t, kind, pos] =>
+    if !(kind == "flip" || kind == "trunc" || kind == "extend") || pos.toNat?.isNone then (d, "bad-op") else
+    (match parseLoc d t with
+     | some l => (match getLoc d l with
+        | some c => (setLoc d l (255 :: c), "ok")
+        | none => (d, "noblob"))
+     | none => (d, "bad-op"))
+  | ["copy", a, b] =>
+    (match parseLoc d a, parseLoc d b with
+     | some la, some lb => (match getLoc d la, getLoc d lb with
+        | some _, some cb => (setLoc d la cb, "ok")
+        | _, _ => (d, "noblob"))
+     | _, _ => (d, "bad-op"))
+  | ["swap", a, b] =>
+    (match parseLoc d a, parseLoc d b with
+     | some la, some lb => (match getLoc d la, getLoc d lb with
+        | some ca, some cb => (setLoc (setLoc d la cb) lb ca, "ok")
+        | _, _ => (d, "noblob"))
+     | _, _ => (d, "bad-op"))
+  | ["drop", t] =>
+    (match parseLoc d t with
+     | some (.e _, n) => (if has d.s.blobs n then ({ d with s := { d.s with blobs := del n d.s.blobs } }, "ok") else (d, "noblob"))
+     | some (.m _, n) => (if has d.s.metas n then ({ d with s := { d.s with metas := del n d.s.metas } }, "ok") else (d, "noblob"))
+     | none => (d, "bad-op"))
+  | ["plant", dst, src] =>
+    if !(dst == "M" || dst == "E") then (d, "bad-op") else
+    (match parseLoc d src with
+     | some l => (match getLoc d l with
+        | some c =>
+          let n := P.digest c
+          if dst == "M" then
+            ({ d with s := { d.s with metas := ins n c d.s.metas }, mNames := addName d.mNames n }, "ok")
+          else
+            ({ d with s := { d.s with blobs := ins n c d.s.blobs }, eNames := addName d.eNames n }, "ok")
+        | none => (d, "noblob"))
+     | none => (d, "bad-op"))
+  | ["snap"] => ({ d with saved := some (d.s.blobs, d.s.metas) }, "ok")
+  | ["restore"] =>
+    (match d.saved with
+     | some (b, m) => ({ d with s := { d.s with blobs := b, metas := m } }, "ok")
+     | none => (d, "nosnap"))
+  | ["restart", mode, order] =>
+    if !(mode == "keep" || mode == "wipe") then (d, "bad-op") else
+    (match parseOrder d order with
+     | some names =>
+       -- the arrival order must list every meta blob present exactly once
+       if !(names.all (has d.s.metas) && d.s.metas.all (fun kv => names.contains kv.1) &&
+            names.eraseDups.length == names.length) then (d, "bad-op") else
+       let (s1, ok) := restart P psteps (mode == "wipe") names d.s
+       let s2 := drain P psteps (drainFuel s1) s1
+       let d := sync { d with s := s2, up := ok }
+       (d, if ok then "ok" else "err")
+     | none => (d, "bad-op"))
+  | _ => (d, "bad-op")
+
+def machine : Machine := { σ := D, init := {}, step := step }
+
 end Pk.Drv.C11
